@@ -14,7 +14,10 @@ import (
 
 // ---- C04: binary search tree ---------------------------------------------------------------------
 
-type bstRunner struct{ t *bstree.BsTree[int, int] }
+type bstRunner struct {
+	t *bstree.BsTree[int, int]
+	decoyHolder
+}
 
 func (r *bstRunner) Do(op []string) string {
 	switch op[0] {
@@ -54,7 +57,10 @@ func (r *bstRunner) Do(op []string) string {
 
 // ---- C10: B-tree -----------------------------------------------------------------------------------
 
-type btreeRunner struct{ t *btree.BTree[int, int] }
+type btreeRunner struct {
+	t *btree.BTree[int, int]
+	decoyHolder
+}
 
 func (r *btreeRunner) Do(op []string) string {
 	switch op[0] {
@@ -148,6 +154,7 @@ func (r *btreeFRunner) Do(op []string) string {
 
 type trieRunner struct {
 	t *trie.Trie[string, int]
+	decoyHolder
 }
 
 func drain(q trie.Queuer[string]) string {
@@ -215,6 +222,7 @@ func (r *trieRunner) Do(op []string) string {
 type lruRunner struct {
 	c   *cache.LRUCache[int, int]
 	cap int
+	decoyHolder
 }
 
 func kvb(k, v int, ok bool) string { return itoa(k) + " " + itoa(v) + " " + b2s(ok) }
@@ -253,22 +261,51 @@ func (r *lruRunner) Do(op []string) string {
 
 func init() {
 	kinds["bst"] = func(p []string) Runner {
-		return &bstRunner{bstree.New[int, int](heapComp(p[0]))}
+		r := &bstRunner{t: bstree.New[int, int](heapComp(p[0]))}
+		r.d.mk = func() decoy {
+			t := bstree.New[int, int](heapComp(p[0]))
+			return decoy{put: func(v int) { t.Upsert(v, v) }, take: func() { t.Delete(-900); t.Delete(-901); t.Delete(-902) }}
+		}
+		return r
 	}
 	kinds["btree"] = func(p []string) Runner {
 		if len(p) > 0 && p[0] == "f" {
 			return &btreeFRunner{btree.New[float64, int]()}
 		}
-		return &btreeRunner{btree.New[int, int]()}
+		r := &btreeRunner{t: btree.New[int, int]()}
+		r.d.mk = func() decoy {
+			t := btree.New[int, int]()
+			return decoy{put: func(v int) { t.Put(v, v) }, take: func() { t.Remove(-900); t.Remove(-901); t.Get(-902) }}
+		}
+		return r
 	}
 	kinds["trie"] = func(p []string) Runner {
 		var q trie.Queuer[string] = queue.New[string]()
 		if len(p) > 0 && p[0] == "linked" {
 			q = &lqueueAdapter{queue.NewLinked[string]("")}
 		}
-		return &trieRunner{trie.New[string, int](q)}
+		r := &trieRunner{t: trie.New[string, int](q)}
+		r.d.mk = func() decoy {
+			t := trie.New[string, int](queue.New[string]())
+			return decoy{put: func(v int) { t.Put("zz"+itoa(v), v) }, take: func() {
+				if ks, err := t.Keys(); err == nil && ks.Size() > 0 {
+					ks.Dequeue()
+				}
+			}}
+		}
+		return r
 	}
-	kinds["lru"] = func(p []string) Runner { return &lruRunner{cap: atoi(p[0])} }
+	kinds["lru"] = func(p []string) Runner {
+		r := &lruRunner{cap: atoi(p[0])}
+		r.d.mk = func() decoy {
+			c, err := cache.NewLRU[int, int](2 + atoi(p[0])%3)
+			if err != nil {
+				c, _ = cache.NewLRU[int, int](2)
+			}
+			return decoy{put: func(v int) { c.Add(v, v) }, take: func() { c.RemoveOldest() }}
+		}
+		return r
+	}
 	gens["C04"] = genC04
 	gens["C10"] = genC10
 	gens["C09"] = genC09
@@ -352,6 +389,9 @@ func genC04(g *Gen) {
 			}
 		}
 		ops = append(ops, "size", "traverse", "traversenested")
+		if len(ops)%3 == 0 { // other live instances of the same type are operated in between
+			ops = withDecoys(ops, r, nil)
+		}
 		g.Emit("bst", []string{comp}, ops)
 	}
 }
@@ -418,6 +458,9 @@ func genC10(g *Gen) {
 		}
 		ops = append(ops, "size", "height", "shape", "traverse")
 		g.Emit("btree", nil, ops)
+		if len(ops)%3 == 0 {
+			g.Emit("btree", nil, withDecoys(ops, r, nil))
+		}
 		if i%2 == 0 || g.Thorough() { // the same history on the float64-keyed instantiation
 			g.Emit("btree", []string{"f"}, ops)
 		}
@@ -608,6 +651,9 @@ func genC09(g *Gen) {
 		if r.Intn(4) == 0 {
 			kind = []string{"linked"}
 		}
+		if len(ops)%3 == 0 { // other live instances of the same type are operated in between
+			ops = withDecoys(ops, r, nil)
+		}
 		g.Emit("trie", kind, ops)
 	}
 }
@@ -773,6 +819,9 @@ func genC07(g *Gen) {
 			ops = append(ops, "removeoldest")
 		}
 		ops = append(ops, "count")
+		if len(ops)%3 == 0 { // other live instances of the same type are operated in between
+			ops = withDecoys(ops, r, nil)
+		}
 		g.Emit("lru", []string{itoa(capacity)}, ops)
 	}
 }
